@@ -135,6 +135,7 @@ structure KTab (α : Type) where
   reaction : α
   temperature : α
   pressure : α
+deriving DecidableEq
 
 namespace KTab
 def get {α} (t : KTab α) : Kind → α
@@ -618,5 +619,13 @@ def abs (ms : Maps) : Kind → Int → Option Entry := fun k n => (ms k).find n
 
 /-- the view the property talks about: (kind, number) ↦ content -/
 def contentOf (ms : Maps) : Kind → Int → Option Nat := fun k n => ((ms k).find n).map (·.content)
+
+/-- kinds visited by `Phreeqc::list_components` -/
+def componentKinds : List Kind := [.solution, .reaction, .pp, .exchange, .surface, .gas, .ss, .kinetics]
+
+/-- `list_components`: the elements of every entry of every visited map (negative numbers included);
+    `elemsOf` gives the elements of a content token -/
+def components (elemsOf : Nat → List String) (ms : Maps) : List String :=
+  componentKinds.flatMap fun k => (ms k).flatMap fun p => elemsOf p.2.content
 
 end PhreeqcVerif.Store
